@@ -16,6 +16,9 @@ for d in seeds:
     pid = os.path.basename(d).split("_")[0]
     if only and pid not in only:
         continue
+    ids = os.environ.get("VERIF_SWEEP_IDS")
+    if ids and os.path.basename(d) not in ids.split(","):
+        continue
     groups.setdefault(GROUP.get(pid, pid), []).append((d, RELATED.get(pid, [pid])))
 
 def run_group(items):
